@@ -51,7 +51,7 @@ fn h2_z{z}() {{
 fn adj_z{z}() {{
     let z: u8 = {z};
     let id: u64 = kani::any();
-    kani::assume(base_id(z) <= id && id + 1 < base_id(z + 1));
+    kani::assume(base_id(z) <= id && id < base_id(z + 1) - 1);
     let (_, x1, y1) = zxy(id).unwrap();
     let (_, x2, y2) = zxy(id + 1).unwrap();
     let dx = if x1 > x2 {{ x1 - x2 }} else {{ x2 - x1 }};
@@ -122,7 +122,7 @@ def prepare(repo, tier, crate):
     if tier == 'thorough':
         zooms, adj, child = list(range(0, 32)), list(range(1, 9)), list(range(0, 8))
     else:
-        zooms, adj, child = list(range(0, 7)), [1, 2, 3, 4], [0, 1, 2, 3]
+        zooms, adj, child = list(range(0, 7)), [1, 2, 3], [0, 1, 2]
     ztxt, znames = zoom_harnesses(zooms, adj, child)
     open(os.path.join(d, 'src', 'gen_zoom.rs'), 'w').write(ztxt)
     open(os.path.join(d, 'src', 'gen_latlng.rs'), 'w').write(gen_latlng(crate))
@@ -145,13 +145,25 @@ def run_harnesses(d, names, jobs, timeout):
     for n in names:
         cmd += ['--harness', qualify(n)]
     t0 = time.time()
+    logf = os.path.join(d, f'kani-{os.getpid()}.log')
+    with open(logf, 'w') as lf:
+        pr = subprocess.Popen(cmd, cwd=d, env=env, stdout=lf, stderr=subprocess.STDOUT, text=True, start_new_session=True)
+        try:
+            rc = pr.wait(timeout=timeout)
+            timed_out = False
+        except subprocess.TimeoutExpired:
+            timed_out = True
+            rc = -9
+            try:
+                os.killpg(pr.pid, 9)   # cargo-kani, kani-driver and every cbmc child
+            except OSError:
+                pass
+            pr.wait()
+    out = open(logf, errors='replace').read() + ('\nTIMEOUT' if timed_out else '')
     try:
-        p = subprocess.run(cmd, cwd=d, env=env, capture_output=True, text=True, timeout=timeout)
-        out = p.stdout + '\n' + p.stderr
-        rc = p.returncode
-    except subprocess.TimeoutExpired as e:
-        out = ((e.stdout or b'').decode(errors='replace') if isinstance(e.stdout, bytes) else (e.stdout or '')) + '\nTIMEOUT'
-        rc = -9
+        os.remove(logf)
+    except OSError:
+        pass
     lock = os.path.join(d, 'Cargo.lock')
     if os.path.exists(lock) and not os.path.exists(os.path.join(CACHE, 'kani-Cargo.lock')):
         shutil.copy(lock, os.path.join(CACHE, 'kani-Cargo.lock'))
@@ -159,31 +171,59 @@ def run_harnesses(d, names, jobs, timeout):
 
 
 def parse(out, names):
-    """per-harness: status, checks, time"""
+    """per-harness: status, checks, time.  With -j the driver prefixes `Thread N:`; a result block belongs to the harness
+    that thread announced last."""
     res = {}
-    # terse / parallel output: blocks start with 'Checking harness X...' or 'Thread N: Checking harness X...'
-    blocks = re.split(r'(?:Thread \d+: )?Checking harness ', out)
-    for b in blocks[1:]:
-        m = re.match(r'([\w:]+)\.\.\.', b)
-        if not m:
-            continue
-        nm = m.group(1).split('::')[-1]
+    cur = None            # harness of the block being read
+    by_thread = {}
+    block = []
+
+    def close(nm, lines):
+        if nm is None:
+            return
+        b = '\n'.join(lines)
         st = None
         if re.search(r'VERIFICATION:- SUCCESSFUL', b):
             st = 'ok'
         elif re.search(r'VERIFICATION:- FAILED', b):
             st = 'failed'
+        if st is None:
+            return
         mc = re.search(r'\*\* (\d+) of (\d+) failed', b)
         mt = re.search(r'Verification Time: ([\d.]+)s', b)
         failed_checks = re.findall(r'Failed Checks: (.*)', b)
         res[nm] = {'status': st, 'checks': int(mc.group(2)) if mc else 0, 'failed': int(mc.group(1)) if mc else 0,
                    'time_s': float(mt.group(1)) if mt else None, 'failed_checks': failed_checks[:5],
-                   'unwind_fail': any('unwinding assertion' in f for f in failed_checks)}
-    # summary form "Manual Harness Summary" lines: 'Verification failed for - name'
+                   'unwind_fail': any('unwinding assertion' in f for f in failed_checks),
+                   'oom': 'out of memory' in b}
+
+    for ln in out.split('\n'):
+        m = re.match(r'(?:Thread (\d+): )?Checking harness ([\w:]+)\.\.\.', ln)
+        if m:
+            close(cur, block)
+            block = []
+            nm = m.group(2).split('::')[-1]
+            if m.group(1) is not None:
+                by_thread[m.group(1)] = nm
+                cur = None
+            else:
+                cur = nm
+            continue
+        m = re.match(r'Thread (\d+):\s*$', ln)
+        if m:
+            close(cur, block)
+            block = []
+            cur = by_thread.get(m.group(1))
+            continue
+        block.append(ln)
+        if 'Verification Time:' in ln or 'CBMC appears to have run out of memory' in ln:
+            close(cur, block)
+            block = []
+            cur = None
+    close(cur, block)
     for nm in re.findall(r'Verification failed for - ([\w:]+)', out):
         nm = nm.split('::')[-1]
-        res.setdefault(nm, {'status': 'failed', 'checks': 0, 'failed': 1, 'time_s': None, 'failed_checks': [], 'unwind_fail': False})
-        res[nm]['status'] = 'failed'
+        res.setdefault(nm, {'status': 'failed', 'checks': 0, 'failed': 1, 'time_s': None, 'failed_checks': [], 'unwind_fail': False, 'oom': False})
     return res
 
 
